@@ -128,51 +128,50 @@ Print Assumptions C15_generate_permutation.
     prescribes HARD_ERROR), the code gives that verdict, for EVERY order in which the OS may list
     directories. *)
 Theorem C15_matcher_semantics :
-  forall (gs : nat -> name -> option bool) (gp : nat -> path -> option bool)
-         (scandir : path -> dirc -> dirc),
+  forall (O : oracles) (scandir : path -> dirc -> dirc),
     (forall p l, Permutation (scandir p l) l) ->
     forall (m : fmatcher) (e : elem) (b : bool),
-      sem_fm gs gp m e = Some b -> eval_fm scandir gs gp m e = Ok b.
-Proof. intros gs gp scandir HP. exact (fm_sound gs gp scandir HP). Qed.
+      sem_fm O m e = Some b -> eval_fm scandir O m e = Ok b.
+Proof. intros O scandir HP. exact (fm_sound O scandir HP). Qed.
 Print Assumptions C15_matcher_semantics.
 
 (** ... and the same for a FILES-MATCHER applied to a model (a directory with selection and prune
     matchers that agree with their declarative counterparts). *)
 Theorem C15_files_matcher_semantics :
-  forall gs gp (scandir : path -> dirc -> dirc),
+  forall (O : oracles) (scandir : path -> dirc -> dirc),
     (forall p l, Permutation (scandir p l) l) ->
     forall (m : fsmatcher) (M : fsmodel) (SM : smodel) (b : bool),
-      models_agree M SM -> sem_fsm gs gp m SM = Some b -> eval_fsm scandir gs gp m M = Ok b.
-Proof. intros gs gp scandir HP. exact (proj1 (proj2 (matchers_sound scandir HP gs gp))). Qed.
+      models_agree M SM -> sem_fsm O m SM = Some b -> eval_fsm scandir O m M = Ok b.
+Proof. intros O scandir HP. exact (proj1 (proj2 (matchers_sound scandir HP O))). Qed.
 Print Assumptions C15_files_matcher_semantics.
 
 (** Consequence: the verdict does not depend on the order in which directories are listed. *)
 Theorem C15_matchers_order_insensitive :
-  forall gs gp (sc1 sc2 : path -> dirc -> dirc),
+  forall (O : oracles) (sc1 sc2 : path -> dirc -> dirc),
     (forall p l, Permutation (sc1 p l) l) -> (forall p l, Permutation (sc2 p l) l) ->
     forall (m : fmatcher) (e : elem) (b : bool),
-      sem_fm gs gp m e = Some b ->
-      eval_fm sc1 gs gp m e = Ok b /\ eval_fm sc2 gs gp m e = Ok b.
-Proof. intros gs gp. exact (order_insensitive gs gp). Qed.
+      sem_fm O m e = Some b ->
+      eval_fm sc1 O m e = Ok b /\ eval_fm sc2 O m e = Ok b.
+Proof. intros O. exact (order_insensitive O). Qed.
 Print Assumptions C15_matchers_order_insensitive.
 
 (** -selection is a conjunction, -with-pruned a disjunction, and they commute ("pruning is done
     before -selection, regardless of their mutual order"). *)
 Theorem C15_selection_conj :
-  forall gs gp (f g : fmatcher) (m : fsmatcher) (SM : smodel),
-    sem_fsm gs gp (SSelection f (SSelection g m)) SM = sem_fsm gs gp (SSelection (FAnd f g) m) SM.
+  forall (O : oracles) (f g : fmatcher) (m : fsmatcher) (SM : smodel),
+    sem_fsm O (SSelection f (SSelection g m)) SM = sem_fsm O (SSelection (FAnd f g) m) SM.
 Proof. exact selection_conj. Qed.
 Print Assumptions C15_selection_conj.
 
 Theorem C15_prune_disj :
-  forall gs gp (f g : fmatcher) (m : fsmatcher) (SM : smodel),
-    sem_fsm gs gp (SPrune f (SPrune g m)) SM = sem_fsm gs gp (SPrune (FOr f g) m) SM.
+  forall (O : oracles) (f g : fmatcher) (m : fsmatcher) (SM : smodel),
+    sem_fsm O (SPrune f (SPrune g m)) SM = sem_fsm O (SPrune (FOr f g) m) SM.
 Proof. exact prune_disj. Qed.
 Print Assumptions C15_prune_disj.
 
 Theorem C15_selection_prune_commute :
-  forall gs gp (f g : fmatcher) (m : fsmatcher) (SM : smodel),
-    sem_fsm gs gp (SSelection f (SPrune g m)) SM = sem_fsm gs gp (SPrune g (SSelection f m)) SM.
+  forall (O : oracles) (f g : fmatcher) (m : fsmatcher) (SM : smodel),
+    sem_fsm O (SSelection f (SPrune g m)) SM = sem_fsm O (SPrune g (SSelection f m)) SM.
 Proof. exact selection_prune_commute. Qed.
 Print Assumptions C15_selection_prune_commute.
 
@@ -201,9 +200,9 @@ Print Assumptions C15_files_have_distinct_paths.
     line [PATH : type TYPE] per file.  On a tree without links, with unique plain names, the
     complete typed listing satisfies [matches -full] on the recursive contents (declaratively). *)
 Theorem C15_listing_matches_full :
-  forall gs gp (t : tree) (abs : path),
+  forall (O : oracles) (t : tree) (abs : path),
     link_free t = true -> wf_tree t -> plain_tree t ->
-    sem_fsm gs gp (SMatches true (cond_of (listing t [] abs)))
+    sem_fsm O (SMatches true (cond_of (listing t [] abs)))
             (SModel t abs (Rec None None) (fun _ => Some true) (fun _ => Some false)) = Some true.
 Proof. exact listing_matches_full. Qed.
 Print Assumptions C15_listing_matches_full.
@@ -216,8 +215,8 @@ Theorem C15_populate_then_match_full :
     entries_valid es = true -> Forall sources_good es ->
     populate es [] (Dir []) = (t, Done) ->
     forall (scandir : path -> dirc -> dirc), (forall p l, Permutation (scandir p l) l) ->
-    forall gs gp (abs : path),
-      eval_fsm scandir gs gp (SMatches true (cond_of (listing t [] abs)))
+    forall (O : oracles) (abs : path),
+      eval_fsm scandir O (SMatches true (cond_of (listing t [] abs)))
                (FsModel t abs (Rec None None) None None) = Ok true.
 Proof. exact populate_then_matches_full. Qed.
 Print Assumptions C15_populate_then_match_full.
@@ -245,14 +244,12 @@ Proof. vm_compute. repeat split; reflexivity. Qed.
     without pruning there are 4 files *)
 Example C15_example_matcher :
   let t := Dir [(n_a, Dir [(n_b, File [])]); (n_c, Link (Some (Dir [(n_b, File [])])))] in
-  let no := fun (_ : nat) (_ : name) => @None bool in
-  let nop := fun (_ : nat) (_ : path) => @None bool in
   let e := root_elem t [n_a] in
-  sem_fm no nop (FDirContents (Rec None None) (SPrune (FType TSymlink) (SNumFiles CEq 3))) e = Some true
-  /\ sem_fm no nop (FDirContents (Rec None None) (SNumFiles CEq 4)) e = Some true
-  /\ eval_fm id_order no nop (FDirContents (Rec None None) (SPrune (FType TSymlink) (SNumFiles CEq 3))) e = Ok true
-  /\ sem_fm no nop (FDirContents NonRec (SEvery (FContents TEmpty))) e = None
-  /\ eval_fm id_order no nop (FDirContents NonRec (SEvery (FContents TEmpty))) e = Err EHard.
+  sem_fm no_oracles (FDirContents (Rec None None) (SPrune (FType TSymlink) (SNumFiles CEq 3))) e = Some true
+  /\ sem_fm no_oracles (FDirContents (Rec None None) (SNumFiles CEq 4)) e = Some true
+  /\ eval_fm id_order no_oracles (FDirContents (Rec None None) (SPrune (FType TSymlink) (SNumFiles CEq 3))) e = Ok true
+  /\ sem_fm no_oracles (FDirContents NonRec (SEvery (FContents TEmpty))) e = None
+  /\ eval_fm id_order no_oracles (FDirContents NonRec (SEvery (FContents TEmpty))) e = Err EHard.
 Proof. vm_compute. repeat split; reflexivity. Qed.
 
 (** populate-then-match on the example: the listing has 4 files; the condition is the one a user
@@ -263,8 +260,25 @@ Example C15_example_round_trip :
   let t := fst (populate es [] (Dir [])) in
   length (listing t [] [n_a]) = 4%nat
   /\ fc_names (cond_of (listing t [] [n_a])) = [[n_a]; [n_a; n_b]; [n_c]; [n_c; n_b]]
-  /\ eval_fsm id_order (fun _ _ => None) (fun _ _ => None) (SMatches true (cond_of (listing t [] [n_a])))
+  /\ eval_fsm id_order no_oracles (SMatches true (cond_of (listing t [] [n_a])))
                (FsModel t [n_a] (Rec None None) None None) = Ok true
-  /\ eval_fsm id_order (fun _ _ => None) (fun _ _ => None) (SMatches true (cond_of (listing t [] [n_a])))
+  /\ eval_fsm id_order no_oracles (SMatches true (cond_of (listing t [] [n_a])))
                (FsModel t [n_a] NonRec None None) = Ok false.
+Proof. vm_compute. repeat split; reflexivity. Qed.
+
+(** the three external answers as oracles: regex on the suffix, an opaque text matcher, a program.
+    Directory with a regular file "a" (contents "c") and a directory "b". *)
+Example C15_example_oracles :
+  let t := Dir [(n_a, File n_c); (n_b, Dir [])] in
+  let O := Oracles (fun _ _ => None) (fun _ _ => None)
+                   (fun k s => if Nat.eqb k 7 then Some (match s with [] => true | _ => false end) else None)   (* regex 7 = ^$ *)
+                   (fun _ _ => None)
+                   (fun k c => if Nat.eqb k 3 then Some (Some (name_eqb c n_c)) else None)                       (* text matcher 3 *)
+                   (fun k p => if Nat.eqb k 1 then Some (Some (path_eqb p [n_a; n_a])) else None) in             (* program 1 *)
+  let e := root_elem t [n_a] in
+  sem_fm O (FDirContents NonRec (SEvery (FNameRe PSuffix 7))) e = Some true
+  /\ eval_fm id_order O (FDirContents NonRec (SSelection (FType TFile) (SEvery (FContents (TNot (TOpaque 3)))))) e = Ok false
+  /\ sem_fm O (FDirContents NonRec (SEvery (FContents (TOpaque 3)))) e = None
+  /\ eval_fm id_order O (FDirContents NonRec (SSelection (FRun 1) (SNumFiles CEq 1))) e = Ok true
+  /\ eval_fm id_order O (FDirContents NonRec (SAny (FRun 2))) e = Err EMiss.
 Proof. vm_compute. repeat split; reflexivity. Qed.
